@@ -23,6 +23,8 @@ CHECKS = {
              note="trusted: sort model, HashMap/thread_local models; heights in [1000, 2^40); the HTTP fetch itself is not executed"),
  'C11': dict(text="symbolic execution of HeaderValidator::validate_header and its helpers from the MIR over a header-store window with every time/bits field, the candidate header, its proof-of-work value and the current time symbolic, for tip heights around multiples of 2016 and near genesis on four networks, against Bitcoin Core's rules (median-time-past, 2h rule, pow limit, retarget incl. BIP94, min-difficulty exception and walk-back) written in z3 over shared uninterpreted compact-target and retarget functions; 3-way concrete validation (rule / MIR / native) on real 80-byte headers",
              note="trusted: arithmetic of Target::from_compact and CompactTarget::from_next_work_required (uninterpreted in the symbolic part, exact python big-int versions in the concrete part), SHA-256d; walk-back depth bounded by the 12-header window; Signet not covered; the canister-side HeaderStore (ValidationContext) is part of C10"),
+ 'C19': dict(text="symbolic execution of the send_transaction coroutine (driven through its compiled poll function) with flags, both networks, payload length, fee table, attached cycles, decoder outcome and block-source reply (immediate, after a suspension, reject) symbolic or enumerated: forwarded iff counted iff gate open and payload is exactly one transaction; refusals trap before any effect; MalformedTransaction has no effect; cycles = base + per_byte*len",
+             note="trusted: the dependency decoder is a stub with the contract of the function actually called (consensus_decode may leave bytes unread, deserialize may not); native witnesses (valid, valid+trailing byte, garbage, truncated, flag/network refusals) are run through the real endpoint"),
 }
 NA = {
 }
